@@ -584,7 +584,7 @@ func (h *HarnessRun) absorb(o *HarnessRun) {
 // top level go back to the shared queue.
 func (e *Exec) process(s *State) {
 	e.h.Paths++
-	_, _, escaped := e.region(s, nil)
+	_, _, escaped, _ := e.region(s, nil)
 	for _, es := range escaped {
 		var next []*State
 		func() {
